@@ -1,0 +1,69 @@
+//go:build verif
+
+// Contracts for contract-based deductive verification (see /verif/DESIGN.md).
+// Comment-only file: it contributes no code to any build.
+
+package iscp
+
+// ---------------------------------------------------------------- sent storage (C07, C02)
+//
+// Abstract view of the store:  stored(s,id,q)  <=>  chunk q of stream id is kept,
+// content(s,id,q) = its data point groups.
+
+//@ define stored(s, id, q): has(s.buf, id) && has(s.buf[id], q)
+//@ define content(s, id, q): s.buf[id][q]
+
+//@ typeinv inmemSentStorage: self.buf != nil
+//@ typeinv inmemSentStorage: forall(a, uuid.UUID, imp(has(self.buf, a), self.buf[a] != nil && allocated(self.buf[a])))
+//@ typeinv inmemSentStorage: forall(a, uuid.UUID, forall(b, uuid.UUID, imp(has(self.buf, a) && has(self.buf, b) && a != b, self.buf[a] != self.buf[b])))
+
+//@ func newInmemSentStorage
+//@   props C07
+//@   nopanic
+//@   ensures result != nil && result.buf != nil
+//@   ensures forall(a, uuid.UUID, !has(result.buf, a))
+
+//@ func (*inmemSentStorage).Store
+//@   props C07 C02
+//@   nopanic
+//@   ensures result == nil
+//@   ensures stored(s, streamID, sequenceNumber) && content(s, streamID, sequenceNumber) == dps
+//@   ensures forall(id, uuid.UUID, forall(q, uint32, imp(id != streamID || q != sequenceNumber, stored(s, id, q) == old(stored(s, id, q)))))
+//@   ensures forall(id, uuid.UUID, forall(q, uint32, imp((id != streamID || q != sequenceNumber) && stored(s, id, q), content(s, id, q) == old(content(s, id, q)))))
+
+//@ func (*inmemSentStorage).Remove
+//@   props C07 C02
+//@   nopanic
+//@   ensures (result1 == nil) == old(stored(s, streamID, sequenceNumber))
+//@   ensures imp(result1 == nil, result0 == old(content(s, streamID, sequenceNumber)) && !stored(s, streamID, sequenceNumber))
+//@   ensures imp(result1 != nil, forall(id, uuid.UUID, forall(q, uint32, stored(s, id, q) == old(stored(s, id, q)))))
+//@   ensures forall(id, uuid.UUID, forall(q, uint32, imp(id != streamID || q != sequenceNumber, stored(s, id, q) == old(stored(s, id, q)))))
+//@   ensures forall(id, uuid.UUID, forall(q, uint32, imp(stored(s, id, q), content(s, id, q) == old(content(s, id, q)))))
+
+//@ func (*inmemSentStorage).Clear
+//@   props C07 C02
+//@   nopanic
+//@   ensures result == nil
+//@   ensures forall(q, uint32, !stored(s, streamID, q))
+//@   ensures forall(id, uuid.UUID, forall(q, uint32, imp(id != streamID, stored(s, id, q) == old(stored(s, id, q)))))
+//@   ensures forall(id, uuid.UUID, forall(q, uint32, imp(id != streamID && stored(s, id, q), content(s, id, q) == old(content(s, id, q)))))
+
+//@ func (*inmemSentStorage).List
+//@   props C07 C02
+//@   nopanic
+//@   modifies nothing
+//@   ensures (result1 == nil) == has(s.buf, streamID)
+//@   ensures imp(result1 == nil, result0 != nil && fresh(result0))
+//@   ensures imp(result1 == nil, forall(q, uint32, has(result0, q) == stored(s, streamID, q)))
+//@   ensures imp(result1 == nil, forall(q, uint32, imp(has(result0, q), result0[q] == content(s, streamID, q))))
+//@   loop 1 invariant result != nil && fresh(result)
+//@   loop 1 invariant forall(q, uint32, has(result, q) == visited(q))
+//@   loop 1 invariant forall(q, uint32, imp(visited(q), has(s.buf[streamID], q) && result[q] == s.buf[streamID][q]))
+
+// ---------------------------------------------------------------- lock identities (C08)
+// Facts established by the constructors and assumed wherever a pointer of the
+// type is a parameter: the condition variable of connStatus waits on the
+// embedded RWMutex; Upstream.receivedAck has its own mutex.
+
+//@ typeassume connStatus: lockid(self.cond.L) == lockid(self.RWMutex)
+//@ typeassume Upstream: lockid(self.receivedAck.L) != lockid(self.mu)
